@@ -100,6 +100,60 @@ CHECKS.update({
         note='exact reals; simulator contract; one dtype per sequence', ref='DESIGN.md 3/C08'),
 })
 
+CHECKS.update({
+    'C03': dict(
+        text='The real preconditioner runs histories (train then 3 (4) operations from train/eval/state_dict/memory_usage/load/reset, on all ranks '
+             'or on a subset where no collective is implied) on 2-4 (6) simulated ranks for every divisor k, with symbolic factor/inverse intervals '
+             '(or uninterpreted interval functions) and starting step, so every feasible gating pattern is a path. The simulator checks kind/shape/dtype/root '
+             'equality, membership, new_group sequences and completion at match time; the extracted traces are decided for ALL interleavings by an '
+             'integer-difference-logic query (quick) and a BMC with a symbolic scheduler (thorough). An AST scan re-establishes schedule independence of the traces.',
+        note='simulator contract for torch.distributed (per-group FIFO matching, async op completes when all members issued); value-agnostic tensors; '
+             'GPT-NeoX group creation is C12', ref='DESIGN.md 3/C03', technique='bounded symbolic execution of the real source on a distributed simulator + SMT (IDL / BMC over all rank interleavings)'),
+    'C05': dict(
+        text='Inductive lock-step: from an arbitrary step-boundary state reached through the public load_state_dict (second-order data from arbitrary '
+             'older factors at an arbitrary older step, arbitrary current factors and step count) the real preconditioner and the reference state machine '
+             'run 2 (3) operations from {train, eval, reset_batch, partial-reset-train}; intervals and damping/decay/kl_clip/lr are symbolic constants or '
+             'uninterpreted functions of the step. z3 proves step count +1, factors and gradients equal the reference after every operation.',
+        note='exact reals; LAPACK uninterpreted with congruence; the induction covers arbitrary history lengths as far as the stated state abstraction is closed',
+        ref='DESIGN.md 3/C05'),
+    'C09': dict(
+        text='The lock-step harness with checkpoint operations at every position: state_dict -> in-memory save/load -> freshly constructed preconditioner -> '
+             'load_state_dict (compute_inverses on/off, with/without factors), on 1-2 (4) simulated ranks for every divisor k, from an arbitrary boundary state '
+             'or from boundary 0. z3 proves restored step count, scalars and factors, that load never fails, and that the continued run equals the reference '
+             'with the load transition.',
+        note='exact reals; stubs as C05; documented preconditions for compute_inverses=False / include_factors=False assumed', ref='DESIGN.md 3/C09'),
+    'C11': dict(
+        text='data x model grids (1..2 x 1..2, +(1,3),(3,1); one pipe=2 case) of simulated ranks run the real GPTNeoXKFACPreconditioner on shards of '
+             'column-/row-parallel layers with symbolic data; z3 proves the primary rank holds the unsharded factors and every rank ends with its shard '
+             'of nu*V_full of the unsharded reference (global clip scale). The recorded finding (shard-local clip scale with model parallelism) is '
+             're-observed on two witnesses.',
+        note='DeepSpeed / Megatron are re-implemented stand-ins (cannot be installed); exact reals; simulator contract', ref='DESIGN.md 3/C11'),
+    'C12': dict(
+        text='For every (pipe,data,model) with product <= 8 (16) all ranks of a simulated world construct the real GPTNeoXAssignment with symbolic costs; '
+             'z3/trace checks prove stage agreement, valid least-loaded greedy choice (any tie-break), factor-worker / gradient-source / gradient-worker '
+             'relations from the coordinates, and identical new_group sequences on every rank.',
+        note='DeepSpeed topology is a re-implementation of the documented ProcessTopology; simulator contract for new_group', ref='DESIGN.md 3/C12'),
+    'C13': dict(
+        text='Read off the history simulation (symbolic intervals / start step): per rank, tensors reachable from each layer (attribute walk) vs '
+             'is_grad_worker, memory_usage() vs bytes held, and the collective trace per operation: inverse broadcasts only in worker groups (none under MEM-OPT), '
+             'gradient broadcasts only in receiver groups (none under COMM-OPT), each factor all-reduced over the world exactly once per factor-update step '
+             '(element counts, n(n+1)/2 when symmetric), nothing in a world of one, nothing outside steps and loads.',
+        note='value-agnostic tensors; simulator event log; the solver decides the interval/step gating', ref='DESIGN.md 3/C13'),
+    'C16': dict(
+        text='Module trees from a small grammar (nesting, shared instance, subclasses, unsupported and parameter-less leaves) with two child names as '
+             'symbolic strings and every requires_grad as a symbolic boolean; skip patterns are translated to z3 regular expressions (symre). z3 proves '
+             'registered <=> leaf, supported, trainable, no pattern found in qualified name or class name; first qualified name; hooks exactly once; '
+             'others untouched. GPT-NeoX variant on lower-cased class names.',
+        note='regex subset translated by sre_parse and validated differentially against re on every run; names identifier-like, length <= 8',
+        ref='DESIGN.md 3/C16', technique='bounded symbolic execution of the real source + SMT (z3 strings / regular expressions)'),
+    'C18': dict(
+        text='GPT-NeoX grids run j steps, state_dict() on all ranks (all_gather_object / gloo group / barrier or per-layer files in an in-memory file system), '
+             'load into fresh objects, continue. z3 proves the saved state holds the unsharded reference factors on every rank / one file per layer, the '
+             'gathering ranks restore them and recompute second-order data iff requested, all ranks issue the same collectives, and the resumed run equals '
+             'the reference. The recorded finding (replicated factor restored on one peer only, model > 1) is re-observed on two witnesses.',
+        note='as C11; in-memory file system; kl_clip=None', ref='DESIGN.md 3/C18'),
+})
+
 NOT_YET = {
 }
 
